@@ -369,3 +369,38 @@ func (g *Grammar) Family() string {
 	f, _ := g.Classify()
 	return f
 }
+
+// Expanded returns the grammar with every reference to a regular definition
+// replaced by the parenthesised pattern of the definition, and the regular
+// definitions removed. By the macro semantics it denotes the same lexer; the
+// sweep's -expand-regdefs self-check feeds it to gocc instead of the original.
+func (g *Grammar) Expanded() *Grammar {
+	defs := g.regdefs()
+	var expPat func(p *Pattern) *Pattern
+	expPat = func(p *Pattern) *Pattern {
+		out := &Pattern{}
+		for _, a := range p.Alts {
+			var na []*Term
+			for _, t := range a {
+				switch t.Kind {
+				case TRef:
+					na = append(na, &Term{Kind: TGroup, Sub: expPat(defs[t.Ref])})
+				case TOpt, TRep, TGroup:
+					na = append(na, &Term{Kind: t.Kind, Sub: expPat(t.Sub)})
+				default:
+					c := *t
+					na = append(na, &c)
+				}
+			}
+			out.Alts = append(out.Alts, na)
+		}
+		return out
+	}
+	out := &Grammar{SynTok: g.SynTok, Lits: g.Lits}
+	for _, p := range g.Prods {
+		if p.Kind != PReg {
+			out.Prods = append(out.Prods, Prod{Name: p.Name, Kind: p.Kind, Pat: expPat(p.Pat)})
+		}
+	}
+	return out
+}
